@@ -127,6 +127,21 @@ Theorem rounds_within_limits_partial : forall limits ex ex' k,
 Proof. exact rounds_within_limits_partial_l. Qed.
 Print Assumptions rounds_within_limits_partial.
 
+(* A rolled-back disruption command gives every surviving candidate back to the limits: after
+   UnmarkForDeletion(l) no tracked id of l is marked, wherever it stands in l and whatever else l holds
+   (ids that are no longer tracked included); ids outside l keep their marking. *)
+Theorem unmark_clears : forall (s : mst) (l : list name) (x : name),
+  (In x l -> mem x (m_tracked s) = true -> mem x (m_marked (mstep s (MUnmark l))) = false) /\
+  (~ In x l -> mem x (m_marked (mstep s (MUnmark l))) = mem x (m_marked s)).
+Proof. exact unmark_clears_l. Qed.
+Print Assumptions unmark_clears.
+
+(* Over every mark / unmark / removal history only tracked nodes are marked. *)
+Theorem marked_tracked : forall (h : list mop) (tracked : list name) (x : name),
+  mem x (m_marked (mrun tracked h)) = true -> mem x (m_tracked (mrun tracked h)) = true.
+Proof. exact marked_tracked_l. Qed.
+Print Assumptions marked_tracked.
+
 (* The last guard before each create. *)
 Theorem exceeded_by_iff : forall limits usage,
   exceeded_by (Some limits) usage = true <->
@@ -173,6 +188,12 @@ Proof. vm_compute. repeat split. Qed.
 Example nodes_example :
   run_pass (remaining0 [("nodes", 2000)] []) [[mkIT [("cpu", 2000)] [[]]]; [mkIT [("cpu", 2000)] [[]]]] = Some [("nodes", 0)] /\
   run_pass (remaining0 [("nodes", 2000)] []) [[mkIT [("cpu", 2000)] [[]]]; [mkIT [("cpu", 2000)] [[]]]; [mkIT [("cpu", 2000)] [[]]]] = None.
+Proof. vm_compute. split; reflexivity. Qed.
+
+(* the history of the seeded change C03-2: two candidates marked, the first vanishes, rollback *)
+Example unmark_example :
+  m_marked (mrun [1; 2; 3]%nat [MMark [1; 2]%nat; MRemove 1%nat; MUnmark [1; 2]%nat]) = [] /\
+  m_marked (mrun [1; 2; 3]%nat [MMark [1; 2; 3]%nat; MRemove 1%nat; MUnmark [9; 1; 2]%nat]) = [3%nat].
 Proof. vm_compute. split; reflexivity. Qed.
 
 Example rounds_example :
